@@ -1,5 +1,5 @@
 (* C15 — proofs.  Stdlib + Lia only. *)
-Require Import V.Lib V.GoPath V.C15_Model.
+Require Import V.Lib V.GoPath V.Gen_C15 V.C15_Model.
 From Coq Require Import Lia.
 Open Scope N_scope.
 
@@ -767,14 +767,29 @@ Proof.
   apply N.eqb_neq. apply N.eqb_neq in Hx. intros E. symmetry in E. revert E. apply lower_byte_not_colon. auto.
 Qed.
 
+(* the return expression of IsLoopback for the table as it stands *)
+Lemma is_loopback_host_unfold h :
+  is_loopback_host h = beq h (bs "localhost") || beq (trim_brackets h) (bs "::1")
+                       || has_prefix h (bs "127.") || has_suffix h (bs ".localhost").
+Proof.
+  unfold is_loopback_host.
+  cbn [existsb gen_c15_loopback_eq gen_c15_loopback_trim_eq gen_c15_loopback_prefixes gen_c15_loopback_suffixes fst snd].
+  rewrite !orb_false_r. reflexivity.
+Qed.
+
 (* a host without a colon is judged by IsLoopback on the whole string *)
+Lemma loopback_hostpart_no_colon h : contains_byte COLON h = false -> loopback_hostpart h = h.
+Proof.
+  intros H. unfold loopback_hostpart, split_host_port.
+  rewrite (last_index_none _ (to_lower_no_colon h H)). reflexivity.
+Qed.
+
 Lemma is_loopback_no_colon h :
   contains_byte COLON h = false ->
   is_loopback h = beq h (bs "localhost") || beq (trim_brackets h) (bs "::1")
                   || has_prefix h (bs "127.") || has_suffix h (bs ".localhost").
 Proof.
-  intros H. unfold is_loopback, split_host_port.
-  rewrite (last_index_none _ (to_lower_no_colon h H)). reflexivity.
+  intros H. unfold is_loopback. rewrite (loopback_hostpart_no_colon h H). apply is_loopback_host_unfold.
 Qed.
 
 Lemma loopback_name_never_qualifies s :
@@ -789,12 +804,20 @@ Proof.
   - rewrite H. rewrite !orb_true_r. reflexivity.
 Qed.
 
+Lemma subject_is_internal_unfold h :
+  subject_is_internal h = beq h (bs "localhost") || has_suffix h (bs ".localhost") || has_suffix h (bs ".local")
+                          || has_suffix h (bs ".home.arpa").
+Proof.
+  unfold subject_is_internal. cbn [existsb gen_c15_cert_internal_eq gen_c15_cert_internal_suffixes].
+  rewrite !orb_false_r, !orb_assoc. reflexivity.
+Qed.
+
 (* .local / .localhost / .home.arpa names cannot get a public certificate *)
 Lemma internal_suffix_never_public h :
   has_suffix h (bs ".localhost") = true \/ has_suffix h (bs ".local") = true \/ has_suffix h (bs ".home.arpa") = true ->
   subject_public h = false.
 Proof.
-  intros H. unfold subject_public, subject_is_internal.
+  intros H. unfold subject_public. rewrite subject_is_internal_unfold.
   destruct H as [H|[H|H]]; rewrite H; rewrite ?orb_true_r; simpl; rewrite ?andb_false_r; reflexivity.
 Qed.
 
